@@ -105,29 +105,106 @@ Theorem C15_channel_ni_vcr_entry : forall cfg i i',
 Proof. exact vcr_entry_ni. Qed.
 Print Assumptions C15_channel_ni_vcr_entry.
 
-Theorem C15_channel_ni_har_entry : forall cfg i i',
-  interaction_public cfg i = interaction_public cfg i' -> har_entry true cfg i = har_entry true cfg i'.
+(* HAR entry.  parse = the foreign cookie parser (http.cookies.SimpleCookie), any function; has_body = the request
+   has a body.  Everything except the two mimeType fields - URL, queryString, header records, BOTH cookies arrays,
+   redirectURL, open text - is a function of the public projection of the exchange: whatever entered through a
+   sensitive header (a Cookie / Set-Cookie header with arbitrary name=value pairs included), through the userinfo
+   or through a sensitive query parameter has no influence on any of these fields ... *)
+Theorem C15_channel_ni_har_entry_sans_mime : forall parse cfg b b' i i',
+  interaction_public cfg i = interaction_public cfg i' ->
+  option_map entry_sans_mime (har_entry parse true cfg b i) = option_map entry_sans_mime (har_entry parse true cfg b' i').
+Proof. exact har_entry_sans_mime_ni. Qed.
+Print Assumptions C15_channel_ni_har_entry_sans_mime.
+
+(* ... the cookies arrays in particular ... *)
+Theorem C15_channel_ni_har_cookies : forall parse cfg b b' i i',
+  interaction_public cfg i = interaction_public cfg i' ->
+  option_map entry_cookies (har_entry parse true cfg b i) = option_map entry_cookies (har_entry parse true cfg b' i').
+Proof. exact har_cookies_ni. Qed.
+Print Assumptions C15_channel_ni_har_cookies.
+
+(* ... which, where the Cookie / Set-Cookie header names are sensitive, are built from the MARKER: a function of
+   the configuration and of the presence of the header, whatever name=value pairs the header carried ... *)
+Theorem C15_channel_har_cookies_from_marker : forall parse cfg b i e,
+  har_entry parse true cfg b i = Some e ->
+  (is_sensitive cfg s_Cookie = true ->
+   h_req_cookies e = if assoc_mem s_Cookie (i_req_headers i) then har_cookies parse [repl cfg] else []) /\
+  (is_sensitive cfg s_SetCookie = true ->
+   forall r h, h_resp e = Some r -> i_resp_headers i = Some h ->
+   hr_cookies r = if assoc_mem s_SetCookie h then har_cookies parse [repl cfg] else []).
+Proof. exact har_cookies_from_marker. Qed.
+Print Assumptions C15_channel_har_cookies_from_marker.
+
+(* ... and empty for every parser that finds no cookie in a single character (the writer walks the characters
+   of each header value, cassettes.py:469-470), sanitization on or off; the modelled SimpleCookie is such a parser *)
+Theorem C15_channel_har_cookies_empty : forall parse san cfg b i e,
+  (forall ch, parse [ch] = []) -> har_entry parse san cfg b i = Some e -> entry_cookies e = ([], []).
+Proof. exact har_entry_cookies_empty. Qed.
+Print Assumptions C15_channel_har_cookies_empty.
+
+Theorem C15_simple_cookie_single_character : forall ch, simple_cookie [ch] = [].
+Proof. exact simple_cookie_char. Qed.
+Print Assumptions C15_simple_cookie_single_character.
+
+(* SENTINEL (not the current code): the writer that parses the cookies out of the RECORDED Cookie / set-cookie
+   values and redacts them by cookie name does redact cookies whose own name is sensitive ... *)
+Theorem C15_channel_har_raw_cookies_sensitive_names_redacted : forall parse cfg vs ck,
+  In ck (raw_cookies parse true cfg vs) -> is_sensitive cfg (ck_name ck) = true -> ck_value ck = repl cfg.
+Proof. exact har_raw_cookies_sensitive_name. Qed.
+Print Assumptions C15_channel_har_raw_cookies_sensitive_names_redacted.
+
+(* ... and leaks every other cookie: two exchanges with the same public projection (Cookie: sid=A; theme=d and
+   set-cookie: sid=A; Path=/ against sid=B), same entry under the current writer, different entries under the sentinel,
+   whose cookies arrays show sid=A next to header records that carry the marker *)
+Theorem C15_channel_ni_har_raw_cookies_refuted : exists i i',
+  interaction_public default_config i = interaction_public default_config i' /\
+  har_entry simple_cookie true default_config false i = har_entry simple_cookie true default_config false i' /\
+  (exists e r, har_entry_raw_cookies simple_cookie true default_config false i = Some e /\
+               h_req_headers e = [(s_Cookie, default_repl)] /\
+               h_req_cookies e = [new_cookie s_sid [65]%N; new_cookie [116;104;101;109;101]%N [100]%N] /\
+               h_resp e = Some r /\ hr_headers r = [(s_set_cookie_lc, default_repl)] /\
+               hr_cookies r = [set_attr s_path [47]%N false (new_cookie s_sid [65]%N)]) /\
+  har_entry_raw_cookies simple_cookie true default_config false i <> har_entry_raw_cookies simple_cookie true default_config false i'.
+Proof. exists (w_cookie_interaction 65), (w_cookie_interaction 66). exact har_raw_cookies_leaks. Qed.
+Print Assumptions C15_channel_ni_har_raw_cookies_refuted.
+
+(* The whole entry, mimeType fields included: safe where the Content-Type header is not itself sensitive under the
+   configuration (the default one) ... *)
+Theorem C15_channel_ni_har_entry_partial : forall parse cfg b i i',
+  content_type_public cfg = true ->
+  interaction_public cfg i = interaction_public cfg i' -> har_entry parse true cfg b i = har_entry parse true cfg b i'.
 Proof. exact har_entry_ni. Qed.
-Print Assumptions C15_channel_ni_har_entry.
+Print Assumptions C15_channel_ni_har_entry_partial.
+
+(* ... and refuted outside: after extend(keys_to_sanitize=[Content-Type]) postData.mimeType still shows the recorded
+   value (read from the unsanitised headers, cassettes.py:377) next to a header record that carries the marker *)
+Theorem C15_channel_ni_har_entry_refuted_mime : exists cfg i i',
+  content_type_public cfg = false /\
+  interaction_public cfg i = interaction_public cfg i' /\
+  (exists e, har_entry simple_cookie true cfg true i = Some e /\
+             h_req_headers e = [(s_ContentType, default_repl)] /\ h_post_mime e = Some [65]%N) /\
+  har_entry simple_cookie true cfg true i <> har_entry simple_cookie true cfg true i'.
+Proof. exists w_mime_cfg, (w_mime_interaction 65), (w_mime_interaction 66). exact har_mime_leaks. Qed.
+Print Assumptions C15_channel_ni_har_entry_refuted_mime.
 
 (* HAR entries for URLs with userinfo (repo fix 8fd7266e): the entry is written, with the marker in place
    of the userinfo and of every value of a sensitive query name ... *)
-Theorem C15_channel_har_userinfo_entry_written : forall cfg ui host i,
+Theorem C15_channel_har_userinfo_entry_written : forall parse b cfg ui host i,
   no_at host = true -> u_netloc (i_uri i) = ui ++ AT :: host -> headers_have_values i = true ->
-  exists e, har_entry true cfg i = Some e /\ u_netloc (h_url e) = repl cfg ++ AT :: host /\
+  exists e, har_entry parse true cfg b i = Some e /\ u_netloc (h_url e) = repl cfg ++ AT :: host /\
             h_url e = sanitize_url cfg (i_uri i) /\ query_clean cfg (h_query e) = true.
 Proof. exact har_userinfo_entry_written. Qed.
 Print Assumptions C15_channel_har_userinfo_entry_written.
 
 (* ... whereas the writer as it was before the fix (sentinel definition) raised on every such entry *)
-Theorem C15_channel_har_before_8fd7266e_raises : forall ui host i,
-  no_at host = true -> u_netloc (i_uri i) = ui ++ AT :: host -> har_entry_before_8fd7266e true default_config i = None.
+Theorem C15_channel_har_before_8fd7266e_raises : forall parse b ui host i,
+  no_at host = true -> u_netloc (i_uri i) = ui ++ AT :: host -> har_entry_before_8fd7266e parse true default_config b i = None.
 Proof. exact har_before_fix_raises. Qed.
 Print Assumptions C15_channel_har_before_8fd7266e_raises.
 
 Theorem C15_channel_har_written_before_8fd7266e_refuted : exists i,
-  har_entry_before_8fd7266e true default_config i = None /\
-  exists e, har_entry true default_config i = Some e /\
+  har_entry_before_8fd7266e simple_cookie true default_config false i = None /\
+  exists e, har_entry simple_cookie true default_config false i = Some e /\
             u_netloc (h_url e) = default_repl ++ [64;104]%N /\
             h_query e = [([116;111;107;101;110]%N, default_repl)] /\
             h_req_headers e = [(s_Authorization, default_repl)].
@@ -198,7 +275,7 @@ Print Assumptions C15_channel_ni_console_refuted_location.
 (* ---- sanitization off: every channel shows the raw exchange, whatever the configuration ---- *)
 Theorem C15_off_is_identity : forall cfg i k f loc fs argv0 args is_,
   vcr_entry false cfg i = (i_uri i, i_req_headers i, i_resp_headers i, i_open i) /\
-  har_entry false cfg i = har_of (i_uri i, i_req_headers i, i_resp_headers i, i_open i) /\
+  (forall parse b, har_entry parse false cfg b i = har_of parse (i_uri i, i_req_headers i, i_resp_headers i, i_open i) b (i_req_headers i) (i_resp_headers i)) /\
   curl_view false cfg k = (k_url k, k_params k, requests_prepare (u_netloc (k_url k)) (k_headers k) (k_cookies k) (k_auth k), k_open k) /\
   failure_message false cfg f k = (f, curl_view false cfg k) /\
   console_view false cfg loc fs = (loc, map (fun fk => (fst fk, curl_view false cfg (snd fk))) fs) /\
